@@ -146,10 +146,10 @@ package websocket
 //@ specfn rfc_closeMustReject(int) bool = "rfc.closeMustReject"
 
 //@ modset BrMods(c) := c.br.g_rd, c.br.g_buffered, regionid(c.br.g_buf)
-//@ modset CtlMods(c) := c.g_ctlCount, c.g_ctlType, c.g_ctlCode, c.writeErr
+//@ modset CtlMods(c) := c.g_ctlCount, c.g_ctlType, c.g_ctlCode, c.writeErr, c.g_closeSent, c.g_wfailed, c.conn.g_wn, c.conn.g_wire
 //@ modset ReaderMods(c) := c.readRemaining, c.readFinal, c.readLength, c.readMaskPos, c.readMaskKey, c.readDecompress, c.g_hcalls, c.g_hop, c.g_mlen, BrMods(c), CtlMods(c)
 
-//@ pred RInv(c) := c.br != nil && c.br.g_buf > 0 && c.readRemaining >= 0 && c.br.g_size >= 125 && c.br.g_buffered >= 0 && c.br.g_rd >= 0 && \
+//@ pred RInv(c) := c.br != nil && c.conn != nil && !held(c.mu) && c.br.g_buf > 0 && c.readRemaining >= 0 && c.br.g_size >= 125 && c.br.g_buffered >= 0 && c.br.g_rd >= 0 && \
 //@     0 <= c.readMaskPos && c.readMaskPos <= 3 && iff(c.newDecompressionReader != nil, c.newCompressionWriter != nil)
 
 //@ func (*Conn).read
@@ -168,16 +168,10 @@ package websocket
 //@ ensures imp(n < 0, result == ErrReadLimit && c.readRemaining == old(c.readRemaining))
 //@ ensures imp(n >= 0, result == nil && c.readRemaining == n)
 
-// WriteControl as seen by the reader paths (the writer-side contract is proved
-// further down; this is the same function, one contract).
-//@ func (*Conn).WriteControl
-//@ trusted
-//@ modifies CtlMods(c)
-//@ ensures[ctl] c.g_ctlCount == old(c.g_ctlCount) + 1 && c.g_ctlType == messageType
-//@ ensures[ctlcode] c.g_ctlCode == ite(len(data) >= 2, b2i(data[0])*256 + b2i(data[1]), 0 - 1)
-
 //@ func (*Conn).handleProtocolError
 //@ tags C04 C07
+//@ requires !held(c.mu) && c.conn != nil
+//@ ensures[unlocked] !held(c.mu)
 //@ modifies CtlMods(c)
 //@ ensures[C04.err] result != nil && result != io.EOF
 //@ ensures[C04.close1002] c.g_ctlCount == old(c.g_ctlCount) + 1 && c.g_ctlType == 8 && c.g_ctlCode == 1002
@@ -186,16 +180,19 @@ package websocket
 // (the default ones call WriteControl) but, as doc.go requires, does not call
 // the read methods.
 //@ func field:Conn.handlePong
+//@ ensures !held(c.mu)
 //@ params c appData
 //@ results err
 //@ trusted
 //@ modifies CtlMods(c)
 //@ func field:Conn.handlePing
+//@ ensures !held(c.mu)
 //@ params c appData
 //@ results err
 //@ trusted
 //@ modifies CtlMods(c)
 //@ func field:Conn.handleClose
+//@ ensures !held(c.mu)
 //@ params c code text
 //@ results err
 //@ trusted
@@ -332,3 +329,96 @@ package websocket
 //@ loop 1 invariant RState(c)
 //@ loop 1 invariant imp(old(c.readErr) != nil, c.readErr == old(c.readErr) && c.br.g_rd == old(c.br.g_rd) && c.g_hcalls == old(c.g_hcalls))
 //@ loop 1 increases c.br.g_rd unless c.readErr != nil
+
+// ---------------------------------------------------------------------------
+// conn.go: writer
+//
+// Ghost state of the write side:
+//	c.conn.g_wire / g_wn   every byte handed to the transport, and how many
+//	c.g_closeSent          a close frame has been accepted by the transport
+//	c.g_wfailed            a transport write or deadline call has failed
+// The channel c.mu is the write lock.  Its resource invariant MuInv says that
+// once a close frame went out or a write failed, writeErr is set; writeErr is
+// only ever changed from nil to non-nil (writeFatal), under writeErrMu.
+
+//@ ghostfield Conn.g_closeSent bool
+//@ ghostfield Conn.g_wfailed bool
+
+//@ pred MuInv(c) := imp(c.g_closeSent, c.writeErr != nil) && imp(c.g_wfailed, c.writeErr != nil)
+//@ pred ErrMuInv(c) := true
+//@ lock Conn.mu inv MuInv protects Conn.g_closeSent Conn.g_wfailed Conn.conn.g_wn Conn.conn.g_wire monotone Conn.writeErr
+//@ lock Conn.writeErrMu inv ErrMuInv monotone Conn.writeErr
+
+//@ pred isControlT(t) := t == 8 || t == 9 || t == 10
+//@ pred isDataT(t) := t == 1 || t == 2
+//@ modset WireMods(c) := c.g_closeSent, c.g_wfailed, c.conn.g_wn, c.conn.g_wire, c.writeErr
+
+//@ func (*Conn).writeFatal
+//@ tags C09 C10
+//@ requires err != nil
+//@ modifies c.writeErr
+//@ ensures result == err && c.writeErr != nil
+//@ ensures imp(old(c.writeErr) != nil, c.writeErr == old(c.writeErr))
+
+//@ func newMaskKey
+//@ tags C02
+
+//@ func (*Conn).writeBufs
+//@ tags C02 C10
+//@ requires len(bufs) == 2
+//@ let b0 := bufs[0]
+//@ let b1 := bufs[1]
+//@ modifies c.conn.g_wn, c.conn.g_wire, region(bufs)
+//@ ensures c.conn.g_wn >= old(c.conn.g_wn) && c.conn.g_wn <= old(c.conn.g_wn) + len(b0) + len(b1) && imp(result == nil, c.conn.g_wn == old(c.conn.g_wn) + len(b0) + len(b1))
+//@ ensures forall(i, 0, len(b0), imp(old(c.conn.g_wn) + i < c.conn.g_wn, c.conn.g_wire[old(c.conn.g_wn) + i] == old(b0[i])))
+//@ ensures forall(i, 0, len(b1), imp(old(c.conn.g_wn) + len(b0) + i < c.conn.g_wn, c.conn.g_wire[old(c.conn.g_wn) + len(b0) + i] == old(b1[i])))
+//@ ensures forall(k, 0, old(c.conn.g_wn), c.conn.g_wire[k] == old(c.conn.g_wire[k]))
+
+//@ func (*Conn).write
+//@ tags C02 C09 C10 C11
+//@ requires !held(c.mu) && c.conn != nil
+//@ modifies WireMods(c)
+//@ ensures[unlocked] !held(c.mu)
+//@ ensures[C09.refuse] imp(old(c.writeErr) != nil, result == old(c.writeErr))
+//@ ensures[C10.failstop] imp(result != nil, c.writeErr != nil)
+//@ ensures[C09.closesent] imp(result == nil && frameType == 8, c.writeErr != nil)
+//@ assert at call:SetWriteDeadline#1[C09.nowrite]: held(c.mu) && !c.g_closeSent && !c.g_wfailed && c.writeErr == nil
+//@ assert at call:SetWriteDeadline#1[C10.deadline]: arg1 == deadline
+//@ assert at call:Write#1[C09.nowrite]: held(c.mu) && !c.g_closeSent && !c.g_wfailed
+//@ assert at call:writeBufs#1[C09.nowrite]: held(c.mu) && !c.g_closeSent && !c.g_wfailed
+//@ ghost after call:SetWriteDeadline#1 when ret != nil: c.g_wfailed := true
+//@ ghost after call:Write#1 when ret1 != nil: c.g_wfailed := true
+//@ ghost after call:writeBufs#1 when ret != nil: c.g_wfailed := true
+//@ ghost after call:Write#1 when ret1 == nil && frameType == 8: c.g_closeSent := true
+//@ ghost after call:writeBufs#1 when ret == nil && frameType == 8: c.g_closeSent := true
+
+//@ func (*Conn).WriteControl
+//@ tags C02 C08 C09 C10 C11
+//@ mode int bv
+//@ requires !held(c.mu) && c.conn != nil
+//@ modifies WireMods(c), c.g_ctlCount, c.g_ctlType, c.g_ctlCode
+//@ ensures[unlocked] !held(c.mu)
+//@ ensures[ctl] c.g_ctlCount == old(c.g_ctlCount) + 1 && c.g_ctlType == messageType
+//@ ensures[ctlcode]@int c.g_ctlCode == ite(len(data) >= 2, b2i(data[0])*256 + b2i(data[1]), 0 - 1)
+//@ ensures[C10.bad] imp(!isControlT(messageType) || len(data) > 125, result != nil && c.conn.g_wn == old(c.conn.g_wn) && c.writeErr == old(c.writeErr))
+//@ assert at return#3[C11.timeout]: result == errWriteTimeout && c.conn.g_wn == old(c.conn.g_wn) && c.writeErr == old(c.writeErr) && !held(c.mu)
+//@ assert at return#4[C11.timeout]: result == errWriteTimeout && c.conn.g_wn == old(c.conn.g_wn) && c.writeErr == old(c.writeErr) && !held(c.mu)
+//@ ensures[C09.refuse] imp(old(c.writeErr) != nil && isControlT(messageType) && len(data) <= 125 && result != errWriteTimeout, result == old(c.writeErr))
+//@ ensures[C10.failstop] imp(result != nil && result != errWriteTimeout && isControlT(messageType) && len(data) <= 125, c.writeErr != nil)
+//@ ensures[C09.closesent] imp(result == nil && messageType == 8, c.writeErr != nil)
+//@ assert at call:SetWriteDeadline#1[C09.nowrite]: held(c.mu) && !c.g_closeSent && !c.g_wfailed && c.writeErr == nil
+//@ assert at call:SetWriteDeadline#1[C10.deadline]: arg1 == deadline
+//@ assert at call:Write#1[C09.nowrite]: held(c.mu) && !c.g_closeSent && !c.g_wfailed
+//@ assert at call:Write#1[C02.ctlhdr]@bv: isControlT(messageType) && len(data) <= 125 && \
+//@     rfc_opcode(arrayOf(arg1), off(arg1)) == messageType && rfc_fin(arrayOf(arg1), off(arg1)) && \
+//@     !rfc_rsv1(arrayOf(arg1), off(arg1)) && !rfc_violates(arrayOf(arg1), off(arg1), !c.isServer, false, false) && \
+//@     rfc_payLen(arrayOf(arg1), off(arg1)) == len(data) && rfc_masked(arrayOf(arg1), off(arg1)) == !c.isServer && \
+//@     len(arg1) == rfc_hdrLen(arrayOf(arg1), off(arg1)) + len(data)
+//@ assert at call:Write#1[C02.ctlpayload]@int: imp(c.isServer, len(arg1) == 2 + len(data) && forall(i, 0, len(data), arg1[2+i] == data[i])) && \
+//@     imp(!c.isServer, len(arg1) == 6 + len(data) && forall(i, 0, len(data), arg1[6+i] ^ arg1[2+(i&3)] == data[i]))
+//@ ghost at exit: c.g_ctlCount := old(c.g_ctlCount) + 1
+//@ ghost at exit: c.g_ctlType := messageType
+//@ ghost at exit@int: c.g_ctlCode := ite(len(data) >= 2, b2i(data[0])*256 + b2i(data[1]), 0 - 1)
+//@ ghost after call:SetWriteDeadline#1 when ret != nil: c.g_wfailed := true
+//@ ghost after call:Write#1 when ret1 != nil: c.g_wfailed := true
+//@ ghost after call:Write#1 when ret1 == nil && messageType == 8: c.g_closeSent := true
